@@ -61,6 +61,7 @@ RULES: Dict[str, Callable] = {
     "R-CONST": _cached("R-CONST", small.run_const),
     "R-STABLE": _cached("R-STABLE", small.run_stable),
     "R-GUARDS": _cached("R-GUARDS", small.run_guards),
+    "R-GLEX": _cached("R-GLEX", small.run_glex),
     "R-PYX-DISCARD": _cached("R-PYX-DISCARD", pyx.run_discarded),
     "R-PYX-DTYPE": _cached("R-PYX-DTYPE", pyx.run_dtypes),
     "R-PYX-MUL": _cached("R-PYX-MUL", pyx.run_multiply),
@@ -311,6 +312,7 @@ PLAN: Dict[str, dict] = {
             G("R-ALIGNFN", "binary mirrored functions broadcast their operands like numpy (align_shape guard)", only=msg("align_shape: guard")),
             S("R-DTYPE", "selected / joined results keep numpy's promoted dtype", only=COMBINING),
             S("R-NONE", "axis / shape arguments that are 0 or () are honoured like numpy does"),
+            G("R-LEAD", "argmax/argmin/amax/amin rank float coefficients exactly (the proxy holds ranks, not truncated values)", only=in_funcs("sortable_proxy")),
         ],
         "explanation": "Last sentence in full: in true_divide/floor_divide/remainder/divmod every path to the numeric ufunc or to a "
                        "normal return passed divisor.isconstant() and the other edge raises FeatureNotSupported. Every registered "
@@ -401,6 +403,7 @@ PLAN: Dict[str, dict] = {
     "C18": {
         "uses": [G("R-STABLE", "no unstable sort primitive in the composed sort"), S("R-FWD", "graded/reverse/cross_truncation forwarded", only=in_files("numpoly/utils/", "construct/monomial.py")),
                  G("R-BINDEX", "the inverted ordering reverses rows only"),
+                 G("R-GLEX", "reverse flips the key rows of the 2-D key matrix, also for a single 1-D key"),
                  G("R-NONE", "bounds / dimensions / cross_truncation that are 0 are honoured, not mistaken for 'omitted'", only=in_files("numpoly/utils/", "construct/monomial.py")),
                  G("R-DIVGUARD", "cross_truncate divides by the bound only after excluding negative and zero components"),
                  G("R-OPT-PAIRING", "glexindex/monomial/bindex forward graded/reverse to their callee", only=in_files("numpoly/utils/", "construct/monomial.py"))],
